@@ -36,6 +36,13 @@ const COMMON_ASSUMPTIONS: &[&str] = &[
     "comparison-only routines behave identically on order-isomorphic inputs, which is what makes the weak-order enumeration complete up to its length bound",
 ];
 
+const NUM_ASSUMPTIONS: &[&str] = &[
+    "big-integer arithmetic (num-bigint) is correct; every finite float converts exactly to a dyadic rational",
+    "the accepted error is the explicit first-order forward-error budget of DESIGN.md appendix C ((2n+8)u times the stated sum of absolute terms), valid for any summation order with or without FMA; it is a formula, not a fitted constant",
+    "libm ln/exp/sqrt/log10 err by at most 1-2 ulp (charged to the budgets)",
+    "ndarray's public slicing API is correct (layouts are built from it)",
+];
+
 pub fn all() -> Vec<Prop> {
     vec![
         Prop {
@@ -88,6 +95,61 @@ pub fn all() -> Vec<Prop> {
             replayers: props::minmax::replayers,
             rule: "proptest: element type (i32, u8, i64, f32, f64) x 0-4-D shape incl. zero-length axes and 0-D x layout (view into a sentinel parent: permuted/stepped/reversed/padded) x ownership (view, owned C, owned F, ArcArray, CowArray borrowed/owned) x static/dynamic dimension x values (ties, signed zeros, infinities, one NaN at first/middle/last position, several NaNs). Oracle: independent scan of the logical data: Ok(idx) => a[idx] <= (>=) every element, *min() == a[argmin()] under IEEE ==, EmptyInput <=> no elements, UndefinedOrder <=> a NaN is present (non-empty). The returned index is not required to be the first extremum. Distinct by hash. Non-trivial: >= 2 elements and (a tie for the extremum, a NaN, or a non-standard layout/ownership).",
             assumptions: COMMON_ASSUMPTIONS,
+            profiles_quick: BOTH,
+            profiles_thorough: BOTH,
+            shards_quick: 8,
+            shards_thorough: 16,
+        },
+        Prop {
+            id: "C06",
+            run: props::means::run_c06,
+            replayers: props::means::replayers_c06,
+            rule: "proptest: element type (f64, f32, i32, i64, u32, usize) x 1-3-D shape x axis x independent layouts for data and weights (two views of the same storage type into sentinel parents) x data class (mixed signs, halves with ties, common offset up to 2^20 with small spread, mixed magnitudes 2^+-40 / 2^+-12, positive) x weight class (quarters, wide ratios, uniform, zero at first/middle/last, sparse); signed weights for the sum forms. Oracle: inputs are dyadic rationals, so sum x, sum w x and their absolute counterparts are computed exactly with big integers; accepted error (2n+8)u * sum|terms| evaluated exactly (weighted_mean: cross-multiplied, no division); integers: exact equality incl. truncating division; per-axis forms lane by lane against the exact oracle; harmonic mean against 200-bit reciprocals, geometric mean against exp of a compensated f64 mean log. Distinct by hash. Non-trivial: n >= 3 and (non-uniform weights or mixed signs).",
+            assumptions: NUM_ASSUMPTIONS,
+            profiles_quick: BOTH,
+            profiles_thorough: BOTH,
+            shards_quick: 8,
+            shards_thorough: 16,
+        },
+        Prop {
+            id: "C07",
+            run: props::means::run_c07,
+            replayers: props::means::replayers_c07,
+            rule: "proptest over f64/f32 arrays as in C06 with ddof in {0, 1, 1/2, k/1024} and moment order 0..8 (0..12 thorough). Oracle: exact rational weighted variance (W Q - S1^2)/(W (W - ddof)) with the range-based budget gamma (W/D) R (R + max|x|) + |var| gamma W/D (R over the elements of non-zero weight; the documented update is one-pass), std judged on its square and as sqrt of the returned variance; exact central moments via n x_i - sum x with budget 2(2n+4p+8)u(A_p + p max|x| A_(p-1)); orders 0/1 bit-exact; skewness/kurtosis by first-order propagation; per-axis forms lane by lane; variance >= -tol. Domain: W - ddof > 2^-10 W. Distinct by hash. Non-trivial: resolving (budget <= 2^-10 of the exact value), n >= 3, non-constant, and (non-uniform weights or order >= 3 or max|x|^2 >= 2^20 var).",
+            assumptions: NUM_ASSUMPTIONS,
+            profiles_quick: BOTH,
+            profiles_thorough: BOTH,
+            shards_quick: 8,
+            shards_thorough: 16,
+        },
+        Prop {
+            id: "C08",
+            run: props::pairs::run_c08,
+            replayers: props::pairs::replayers_c08,
+            rule: "proptest: f64/f32 matrices of 1..8 variables x 2..64 (f32: 32) observations, 2-D layouts (C, F/transposed, stepped, reversed, padded views), data classes as in C06, ddof in {0, 1, quarters, k+1/2 < n}. Oracle: exact sums of products of n x - sum x (big integers) for every entry; budget [gamma sum|dx_i||dx_j| + n e_i e_j + gamma(e_i sum|dx_j| + e_j sum|dx_i|)]/(n-ddof); symmetry and non-negative diagonal within the budget; exact rho from the exact sums with a range-based budget for each sigma^2 (ndarray's std_axis is one-pass), diagonal 1, |rho| <= 1, invariance under x -> a x + b (a > 0; each side against its own exact value, powers of two also against each other) and sign flip under negation of one variable. Distinct by hash. Non-trivial: resolving, >= 2 variables, >= 3 observations, non-square.",
+            assumptions: NUM_ASSUMPTIONS,
+            profiles_quick: BOTH,
+            profiles_thorough: BOTH,
+            shards_quick: 8,
+            shards_thorough: 16,
+        },
+        Prop {
+            id: "C09",
+            run: props::pairs::run_c09,
+            replayers: props::pairs::replayers_c09,
+            rule: "proptest: element type (i32, i64, f64, f32, BigInt) x 1-4-D shape x independent layouts for the two operands x ownership pairing (view/owned/shared for each operand) x values (integer magnitudes bounded from n so nothing overflows; floats as in C06; NaN only to exercise count_eq/count_neq) with a share of equal positions. Oracle: element-wise loop over logical indexes in exact arithmetic (i128 / dyadic): count_eq exact and count_eq+count_neq == len; sq_l2/l1/linf exact for integers, within (2n+8)u of the exact value for floats (linf: 2u); l2, mean_abs_err, mean_sq_err, root_mean_sq_err, PSNR recomputed from the exact base with the documented formula; symmetry (exact for integers) and d(a,a) = 0. Distinct by hash. Non-trivial: >= 2 elements, >= 2 differing positions and operands with different layouts or ownership.",
+            assumptions: NUM_ASSUMPTIONS,
+            profiles_quick: BOTH,
+            profiles_thorough: BOTH,
+            shards_quick: 8,
+            shards_thorough: 16,
+        },
+        Prop {
+            id: "C10",
+            run: props::pairs::run_c10,
+            replayers: props::pairs::replayers_c10,
+            rule: "proptest: f64/f32 arrays of 1-3 dimensions, p and q non-negative finite (k/4096, zeros, m 2^e), normalised or not, independent layouts for p and q, NaN placements in 10% of the cases. Oracle: -sum x ln x, -sum p ln q, -sum p ln(q/p) by f64 libm with compensated summation, zero-p terms contributing exactly 0 (so p=0 with q=NaN or q=0 stays finite), budget 2(2n+8)u sum|terms| (KL: + sum|p|); p>0 with q=0 => +inf; result NaN <=> a NaN in a contributing term; identities KL(p,p) == 0, |H(p,q) - H(p) - KL(p,q)| within the summed budgets, KL >= -tol and H(p) <= ln n + tol for normalised input (normalisation defect charged). Distinct by hash. Non-trivial: >= 3 elements, resolving, and (a zero in p or q, or different layouts).",
+            assumptions: NUM_ASSUMPTIONS,
             profiles_quick: BOTH,
             profiles_thorough: BOTH,
             shards_quick: 8,
